@@ -427,6 +427,48 @@ def threads_section(tier, seed):
     return stats, mism, fails
 
 
+def line_section(tier, seed):
+    """line-boundary scheduler (linesched.py): NCPU fresh interpreters, each forking one child per schedule"""
+    import json
+    import os
+    import subprocess
+    from common import REPO, NCPU
+    here = os.path.dirname(os.path.abspath(__file__))
+    procs = [subprocess.Popen([sys.executable, os.path.join(here, 'linesched.py'), REPO, str(w), str(NCPU), tier, str(seed)],
+                              stdout=subprocess.PIPE, stderr=subprocess.PIPE, text=True) for w in range(NCPU)]
+    tot = 0
+    fails = []
+    dist = {}
+    for p in procs:
+        out, err = p.communicate()
+        got = False
+        for line in out.splitlines():
+            if line.startswith('@@'):
+                got = True
+                r = json.loads(line[2:])
+                tot += r['total']
+                for b in r['bad']:
+                    if 'harness_error' in b:
+                        raise RuntimeError('linesched: ' + b['harness_error'])
+                    if len(fails) < 3:
+                        b['kind'] = 'concurrent-result-differs'
+                        fails.append(b)
+                for k, v in r['dist'].items():
+                    d = dist.setdefault(k, {'pairs': 0, 'package_lines': 0, 'schedules': 0})
+                    for kk in d:
+                        d[kk] += v[kk]
+        if not got:
+            raise RuntimeError('linesched worker produced no result: ' + err[-400:])
+    stats = {'evaluations': tot, 'distinct_nontrivial': tot, 'scenarios': dist, 'mismatches': 0,
+             'samples': [{'scenario': k, **v} for k, v in dist.items()][:2],
+             'rule': 'two real threads under a scheduler that switches at line boundaries inside the package (sys.settrace): for every ordered pair of values of '
+                     'three scenarios (directly / lazily by name / by predicate registered and unregistered classes; lazily registered stdlib types; the dataclasses, '
+                     'attrs and ipython_repr_pretty extras) thread 1 is suspended at package line k (%s), thread 2 prints completely, thread 1 resumes; plus sampled '
+                     'two-pre-emption schedules (thread 2 suspended at its line j while thread 1 finishes); every schedule forks from a state in which nothing has been '
+                     'printed; both texts must equal a sequential result and nobody may raise' % ('220 sampled k per pair' if tier == 'quick' else 'every k')}
+    return stats, [], fails
+
+
 def race_replay():
     """F16: force thread 0 to be suspended right after it has looked the deferred entry up"""
     drv = Driver()
